@@ -73,7 +73,7 @@ pub const ALL_PROPS: &[&str] = &[
 pub fn plans(prop: &str) -> Vec<Plan> {
     let p = |engine, family, quick, thorough, max_ops| Plan { engine, family, quick, thorough, max_ops };
     match prop {
-        "C01" | "C02" | "C03" | "C08" => vec![p("A", "lossy", 36_000, 1_500_000, 400)],
+        "C01" | "C02" | "C03" | "C08" => vec![p("A", "lossy", 36_000, 1_000_000, 400)],
         "C09" => vec![p("A", "lossy", 30_000, 1_000_000, 600), p("A", "budget", 9_000, 300_000, 400)],
         "C13" => vec![p("A", "lossy", 30_000, 1_000_000, 500), p("B", "session", 9_000, 300_000, 250)],
         "C16" => vec![p("A", "lossy", 24_000, 800_000, 400), p("A", "hostile", 12_000, 400_000, 300), p("B", "hostile", 9_000, 300_000, 250)],
